@@ -25,6 +25,11 @@ for m in muts:
         env = dict(os.environ, VERIF_REPO=d, VERIF_EVIDENCE_DIR=os.path.join(d, 'evidence'))
         out = subprocess.run([os.path.join(ROOT, 'check'), m['prop']], capture_output=True, text=True, env=env)
         verdict = {0: 'SURVIVED', 1: 'killed', 2: 'undecided'}.get(out.returncode, 'rc=%d' % out.returncode)
+        if m.get('expect') == 'pass':   # a benign edit (rename / reordering): any alarm is a false alarm
+            verdict = {0: 'killed', 1: 'FALSE-ALARM', 2: 'undecided(benign)'}.get(out.returncode, verdict)
+            print('%-40s %-9s (benign edit: expected to verify)' % (m['id'], 'ok' if out.returncode == 0 else verdict))
+            res.append((m['id'], verdict))
+            continue
         first = [l for l in out.stdout.split('\n') if l.startswith(('VIOLATION', 'UNDECIDED'))][:1]
         print('%-40s %-9s %s' % (m['id'], verdict, first[0][:150] if first else ''))
         res.append((m['id'], verdict))
